@@ -1101,6 +1101,11 @@ class GAM(Core, MetaTermMixin):
         """
         lp = self._linear_predictor(modelmat=modelmat)
         mu = self.link.mu(lp, self.distribution)
+        if not (np.isfinite(self.coef_).all() and np.isfinite(mu).all()):
+            raise OptimizationError(
+                'PIRLS optimization has diverged: the fitted values are not finite.\n'
+                'Try increasing regularization, or rescaling the data.'
+            )
         self.statistics_['edof_per_coef'] = np.diagonal(U1.dot(U1.T))
         self.statistics_['edof'] = self.statistics_['edof_per_coef'].sum()
         if not self.distribution._known_scale:
